@@ -130,6 +130,8 @@ class InterpBase:
         self.pairs_base: Dict[Any, Length] = {}
         self.opaque_funcs: set = set()
         self.number_locals: bool = False
+        self.track_sym_ranges: bool = False
+        self.sym_rng: Dict[Any, Interval] = {}
         self.list_version: Dict[str, int] = {}
         self.quiet = 0
         from .builtins import Builtins
@@ -147,6 +149,12 @@ class InterpBase:
         if n is None:
             n = self._site_ids[key] = len(self._site_ids) + 1
         return n
+
+    def note_range(self, v) -> None:
+        """Side table term -> interval over all visits (lets a rule ask for the range of a factor of a stored term)."""
+        if self.track_sym_ranges and isinstance(v, Num) and v.sym is not None and v.rng is not None:
+            old = self.sym_rng.get(v.sym)
+            self.sym_rng[v.sym] = v.rng if old is None else old.join(v.rng)
 
     def cur_func(self) -> str:
         return self.stack[-1].label if self.stack else "<top>"
